@@ -229,6 +229,19 @@ func init() {
 	reg(zz+"Stdout", func(fr *frame, args []Value) Value {
 		return Str{b: append([]Value(nil), fr.w.out...)}
 	})
+	reg(zz+"Concurrent", func(fr *frame, args []Value) Value {
+		if fr.w.sched != nil {
+			panic(engineError{"zz.Concurrent called twice"})
+		}
+		fr.w.schedStart(int(fr.w.concInt(args[0])), int(fr.w.concInt(args[1])), int(fr.w.concInt(args[2])))
+		return nil
+	})
+	reg(zz+"Yield", func(fr *frame, args []Value) Value {
+		if fr.w.sched != nil {
+			fr.w.yieldPoint(nil, "yield")
+		}
+		return nil
+	})
 	reg(zz+"BoundedChans", func(fr *frame, args []Value) Value {
 		fr.w.boundedChans = liftBool(args[0]) == trueT
 		return nil
@@ -756,6 +769,22 @@ func init() {
 		return Struct{int64(0), t, (*Value)(nil)}
 	})
 	reg("time.Sleep", func(fr *frame, a []Value) Value { fr.w.stub("time.Sleep: returns at once"); return nil })
+	reg("time.After", func(fr *frame, a []Value) Value {
+		w := fr.w
+		w.chanCtr++
+		c := &Chan{cap: 1, id: w.chanCtr}
+		if w.sched == nil || w.sched.timers > 0 {
+			if w.sched != nil {
+				w.sched.timers--
+			}
+			c.buf = []Value{Struct{int64(0), int64(0), (*Value)(nil)}}
+			w.stub("time.After: fires (readable at once)")
+		} else {
+			w.stub("time.After: beyond the timer bound of the path: never fires")
+		}
+		return c
+	})
+	reg("os/signal.Notify", func(fr *frame, a []Value) Value { fr.w.stub("signal.Notify: no signal arrives"); return nil })
 	reg("time.runtimeNano", func(fr *frame, a []Value) Value { return int64(1000000000) })
 }
 
